@@ -72,7 +72,7 @@ func optBytesCoq(b []byte, err error) string {
 	if err != nil {
 		return "None"
 	}
-	return "(Some " + vh.Bytes(b) + ")"
+	return "(Some " + cb(b) + ")"
 }
 
 func emitParse(c *vh.Ctx, kind, key string, b []byte, p *tls.PubClientHelloMsg) {
@@ -87,7 +87,7 @@ func emitParse(c *vh.Ctx, kind, key string, b []byte, p *tls.PubClientHelloMsg) 
 	if p == nil {
 		exts = nil
 	}
-	c.Case(kind, fmt.Sprintf("CParse %s %s %s", vh.Bytes(b), o, vh.U16s(exts)), key, p != nil,
+	addCase(kind, fmt.Sprintf("CParse %s %s %s", cb(b), o, vh.U16s(exts)), key, p != nil,
 		map[string]any{"kind": kind, "bytes": len(b), "parsed": p != nil, "extensions": exts})
 }
 
@@ -128,11 +128,14 @@ func pipeline(c *vh.Ctx, kind, who, key string, b []byte) {
 		c.Fail("marshal-raw/"+who, "UnmarshalClientHello followed by Marshal does not reproduce the input", vh.Hex(b),
 			map[string]any{"err": fmt.Sprint(err), "out": vh.Hex(out)}, "the input bytes")
 	}
-	c.Case(kind+"-marshal", fmt.Sprintf("CMarshal %s %s", coqObj(stripCache(p)), optBytesCoq(out, err)), key+"/marshal", true, nil)
+	// (as a Coq case only for a few: by C31_marshal_ignores_fields_while_raw_set the model just returns Raw)
+	if kind == "gen" || who == "Golang" || who == "Chrome_133" || who == "Firefox_120" || who == "Safari_16_0" {
+		addCase(kind+"-marshal", fmt.Sprintf("CMarshal %s %s", coqObj(stripCache(p)), optBytesCoq(out, err)), key+"/marshal", true, nil)
+	}
 	// (b) parse, clear Raw, marshal, parse again: same field values
 	q := clearRaw(p)
 	b2, err := q.Marshal()
-	c.Case(kind+"-remarshal", fmt.Sprintf("CMarshal %s %s", coqObj(stripCache(q)), optBytesCoq(b2, err)), key+"/remarshal", true, nil)
+	addCase(kind+"-remarshal", fmt.Sprintf("CMarshal %s %s", coqObj(stripCache(q)), optBytesCoq(b2, err)), key+"/remarshal", true, nil)
 	if err != nil {
 		c.Fail("remarshal/"+who, "marshaling a parsed ClientHello with Raw cleared fails", vh.Hex(b), fmt.Sprint(err), "bytes")
 		return
@@ -536,11 +539,11 @@ func runHellos(c *vh.Ctx) {
 		pipeline(c, "randomized", "randomized", fmt.Sprintf("randomized/%x", seed[:6]), raw)
 	}
 	// generated field values: marshal -> parse returns the fields, then the property's round trips
-	ng := 20 + c.N/10
+	ng := 12 + c.N/20
 	for i := 0; i < ng; i++ {
 		q := genHello(r)
 		b, err := tls.VerifC31MarshalMsg(q)
-		c.Case("gen-marshal", fmt.Sprintf("CMarshalMsg %s %s", coqObj(stripCache(q)), optBytesCoq(b, err)), fmt.Sprintf("gen/%d", i), true, nil)
+		addCase("gen-marshal", fmt.Sprintf("CMarshalMsg %s %s", coqObj(stripCache(q)), optBytesCoq(b, err)), fmt.Sprintf("gen/%d", i), true, nil)
 		if err != nil {
 			c.Fail("gen/marshal", "marshalMsg failed on generated valid field values", fmt.Sprintf("%+v", q), fmt.Sprint(err), "bytes")
 			continue
@@ -562,7 +565,7 @@ func runHellos(c *vh.Ctx) {
 			names = append(names, p.name)
 		}
 	}
-	nv := 2
+	nv := 1
 	if c.Tier != "quick" {
 		nv = 12
 	}
